@@ -119,6 +119,33 @@ theorem spawn_sites :
     ((regions.filter (·.spawns)).map fun r => (r.fn, r.idx)) =
       [("Execute", 0), ("waitWithTimeout", 0), ("prepareResultChannels", 1)] := by decide
 
+/-- functions that take the client mutex themselves (they have a critical section of their own) -/
+def lockingFns : List String := (regions.filter (fun r => r.idx != 0)).map (·.fn)
+
+/-- code that runs with the client mutex held: every critical section, and the body of
+    `sendExecutionResult` (F2: it is only called from critical sections) -/
+def heldRegions : List Region :=
+  regions.filter (fun r => r.idx != 0 || r.fn == "sendExecutionResult")
+
+/-- F11. Nothing that runs with the client mutex held calls a function that locks it (`sync.Mutex`
+    is not re-entrant: such a call would block the caller on itself - the read loop, for one, would
+    never deliver or fan out anything again).  The model's steps are whole critical sections; a
+    nested one has no counterpart in it. -/
+theorem no_lock_inside_section :
+    (heldRegions.all fun r => r.calls.all fun f => !lockingFns.contains f) = true := by decide
+
+/-- F12. `Close` waits for the client's goroutines WITHOUT a bound: the only statement between the
+    client-done message and `return nil` is `c.wg.Wait()` at the top level of the function, and it is
+    the last one.  The bounded `waitWithTimeout` is used on the failed-write path only (inside
+    `if err != nil`).  (Model: `clRet` needs `loops = [] ∧ writers = []`, and `C06_close_final`: after
+    a normal return of Close no goroutine of the client is left - whatever a run in flight takes.) -/
+theorem close_waits_unbounded :
+    ((waitSites.filter (fun w => w.fn == "Close" && w.call == "wg.Wait")).map fun w => (w.depth, w.cond, w.tail)) =
+      [(0, "", true)] ∧
+    ((waitSites.filter (fun w => w.call == "waitWithTimeout")).all fun w =>
+      w.fn == "Close" && w.cond == "err != nil" && w.depth != 0 && !w.tail) = true ∧
+    ((waitSites.filter (fun w => w.fn == "Close" && w.tail)).map (·.call)) = ["wg.Wait"] := by decide
+
 end Arca.AtpClientFacts
 
 #print axioms Arca.AtpClientFacts.sections_are_model_steps
@@ -133,3 +160,5 @@ end Arca.AtpClientFacts
 #print axioms Arca.AtpClientFacts.blocking_in_sections
 #print axioms Arca.AtpClientFacts.no_stream_write_under_client_mutex
 #print axioms Arca.AtpClientFacts.spawn_sites
+#print axioms Arca.AtpClientFacts.no_lock_inside_section
+#print axioms Arca.AtpClientFacts.close_waits_unbounded
